@@ -137,12 +137,9 @@ StderrShared ==
 Concat(seq) == IF seq = <<>> THEN "" ELSE
   LET F[i \in 0..Len(seq)] == IF i = 0 THEN "" ELSE F[i - 1] \o seq[i] IN F[Len(seq)]
 
-\* Above fd 2 a stage may hold an end of a library pipe only if that very end (same pipe, same
-\* direction) is also one of its own standard streams (a leftover duplicate of its own side);
-\* anything else is the parent's side, the launch-status channel or another child's pipe.
-NoLeakStage(s) ==
-  \A fd \in DOMAIN s.fds : (fd > 2 /\ s.fds[fd].ino \in libpipes) =>
-    \E i \in (DOMAIN s.fds) \cap (0..2) : s.fds[i].ino = s.fds[fd].ino /\ s.fds[i].acc = s.fds[fd].acc
+\* Above fd 2 a stage holds no end of any pipe the library created -- not even a second copy of the pipe that is
+\* its own stdout/stderr (it could not make the reader see end-of-file by closing its standard stream).
+NoLeakStage(s) == \A fd \in DOMAIN s.fds : fd > 2 => s.fds[fd].ino \notin libpipes
 
 PipelineVerdict(post, children) ==
   LET det == cfg.detached \/ cfg.term = "communicate"   \* communicate() hands out a Communicator and detaches the commands
@@ -188,7 +185,7 @@ HandleVerdict(post, children) ==
     V(~(Hung /\ HangExplained), "C12_no_self_inflicted_hang")
     \cup V(~det => children = "none" /\ \A i \in 1..Len(afterDrop) : afterDrop[i][2] = "gone", "C12_reaped")
     \cup V(det => waitsAfterMark = 0 /\ \A i \in 1..Len(afterDrop) : afterDrop[i][2] # "gone", "C12_detached_never_reaps")
-    \cup V(res.ok, "C12_handle_call_failed")
+    \cup V(res.ok \/ cfg.may_fail, "C12_handle_call_failed")
 
 \* ---------------------------------------------------------------- two threads launching at the same time (C08)
 RaceVerdict(post, children) ==
